@@ -1,5 +1,5 @@
 @unit cw4stake
-@shim core.rs cw_utils.rs std_more.rs cw2.rs std_adapters.rs snapshot.rs cw_controllers.rs range.rs snapshot_range.rs
+@shim core.rs cw_utils.rs std_more.rs cw3deps.rs cw2.rs std_adapters.rs snapshot.rs cw_controllers.rs range.rs snapshot_range.rs
 @properties C09 C10 C14 C20 C06
 
 // ===================================================================== data and state
